@@ -404,11 +404,11 @@ theorem sub_only (cfg : Cfg) (site : Site) (p : Path) (v w : Val) (r : Res)
   | .dict c kvs, w, h => by
     cases w with
     | dict c' kvs' =>
-      simp only [sub, noOnly_direct] at h ⊢
+      simp only [sub] at h ⊢
       split at h
       · cases h
       · rename_i h1
-        rw [if_neg h1]
+        rw [if_neg (show ¬(site = .item ∧ cfg.direct = false ∧ c' = .plain) from h1)]
         exact dictWalk_only cfg p _ _ kvs kvs' true true kvs r h
     | _ => simp [sub] at h
   | .none, _, h => by
@@ -588,5 +588,327 @@ theorem only_filter (cfg : Cfg) (a b : Val) (r : Res)
     · cases h
   obtain ⟨r', hr', hf⟩ := key
   exact ⟨r', hr', hf.diffPart (compareTop_balanced cfg a b r' hr')⟩
+
+/-! ### PART 3: `exclude_xpaths` -/
+
+def isIdx : PSeg → Bool | .key _ => false | _ => true
+
+/-- some prefix `q` of the entry's path that the code tests against `exclude_xpaths` matches: the prefix ends at a
+dictionary key, or it is the path of a list (the next segment is an index) -/
+def exclHit (ex : PatArg) : Path → Path → Bool
+  | q, [] => lastIsKey q && xpathMatch (render q) ex != 0
+  | q, s :: r => ((lastIsKey q || isIdx s) && xpathMatch (render q) ex != 0) || exclHit ex (q ++ [s]) r
+
+/-- the same options without `exclude_xpaths` -/
+def noExcl (cfg : Cfg) : Cfg := { cfg with excl := .many [] }
+
+@[simp] theorem noExcl_direct (cfg : Cfg) : (noExcl cfg).direct = cfg.direct := rfl
+@[simp] theorem noExcl_fl (cfg : Cfg) : (noExcl cfg).fl = cfg.fl := rfl
+@[simp] theorem excluded_noExcl (cfg : Cfg) (p : Path) : excluded (noExcl cfg) p = false := rfl
+@[simp] theorem transformAt_noExcl (cfg : Cfg) (p : Path) : transformAt (noExcl cfg) p = transformAt cfg p := rfl
+@[simp] theorem onlyOk_noExcl (cfg : Cfg) (p : Path) : onlyOk (noExcl cfg) p = onlyOk cfg p := rfl
+@[simp] theorem classifyItem_noExcl (cfg : Cfg) (p pne pdt : Path) (sa oa x y : Val) :
+    classifyItem (noExcl cfg) p pne pdt sa oa x y = classifyItem cfg p pne pdt sa oa x y := rfl
+@[simp] theorem keysOf_noExcl (cfg : Cfg) (p : Path) (xs : List Val) : keysOf (noExcl cfg) p xs = keysOf cfg p xs :=
+  keysOf_congr (noExcl cfg) cfg rfl rfl p xs
+
+/-- the filter below prefix `p`: only the part of the path after `p` is walked -/
+def exKeep (ex : PatArg) (p q : Path) : Bool := !exclHit ex p (q.drop p.length)
+
+theorem exKeep_append (ex : PatArg) (p rest : Path) : exKeep ex p (p ++ rest) = !exclHit ex p rest := by
+  simp [exKeep]
+
+theorem exclHit_of_key (ex : PatArg) (q : Path) (hk : lastIsKey q = true) (hm : (xpathMatch (render q) ex != 0) = true) :
+    ∀ rest, exclHit ex q rest = true
+  | [] => by simp [exclHit, hk, hm]
+  | _ :: _ => by simp [exclHit, hk, hm]
+
+@[simp] theorem lastIsKey_idxSeg (p : Path) (s : PSeg) (hs : isIdx s = true) : lastIsKey (p ++ [s]) = false := by
+  cases s <;> simp_all [isIdx]
+
+/-- an entry at key `k` under `p` survives iff `p/k` is not excluded -/
+theorem exKeep_key (cfg : Cfg) (p : Path) (k : Str) (hp : (lastIsKey p && excluded cfg p) = false) :
+    exKeep cfg.excl p (p ++ [.key k]) = !excluded cfg (p ++ [.key k]) := by
+  simp only [excluded] at hp
+  simp [exKeep_append, exclHit, isIdx, hp, excluded]
+
+/-- an entry at an item of a list that is not excluded survives -/
+theorem exKeep_idxSeg (cfg : Cfg) (p : Path) (s : PSeg) (hp : excluded cfg p = false) (hs : isIdx s = true) :
+    exKeep cfg.excl p (p ++ [s]) = true := by
+  simp only [excluded] at hp
+  simp [exKeep_append, exclHit, hs, hp]
+
+/-- everything at or below an excluded dictionary entry is dropped -/
+theorem exKeep_under_key (cfg : Cfg) (p : Path) (k : Str) (more : Path) (he : excluded cfg (p ++ [.key k]) = true) :
+    exKeep cfg.excl p ((p ++ [.key k]) ++ more) = false := by
+  have e : (p ++ [PSeg.key k]) ++ more = p ++ PSeg.key k :: more := by simp
+  rw [e, exKeep_append]
+  simp only [excluded] at he
+  simp [exclHit, exclHit_of_key cfg.excl (p ++ [.key k]) (by simp) he more]
+
+/-- everything below an excluded list is dropped -/
+theorem exKeep_under_list (cfg : Cfg) (p : Path) (s : PSeg) (more : Path) (he : excluded cfg p = true)
+    (hs : isIdx s = true) : exKeep cfg.excl p (p ++ s :: more) = false := by
+  simp only [excluded] at he
+  simp [exKeep_append, exclHit, hs, he]
+
+/-! #### where the entries of a run are located -/
+
+/-- every entry is located strictly below `p`, and the first segment after `p` satisfies `ok` -/
+def Below (ok : PSeg → Bool) (p : Path) (r : Res) : Prop :=
+  ∀ q ∈ r.paths, ∃ s more, q = p ++ s :: more ∧ ok s = true
+
+theorem Below.append {ok : PSeg → Bool} {p : Path} {a b : Res} (ha : Below ok p a) (hb : Below ok p b) :
+    Below ok p (a ++ b) := by
+  intro q hq
+  rcases mem_paths_append.1 hq with h | h
+  · exact ha q h
+  · exact hb q h
+
+theorem Below.empty (ok : PSeg → Bool) (p : Path) : Below ok p Res.empty := by
+  intro q hq; simp at hq
+
+theorem Below.mono {ok : PSeg → Bool} {p : Path} {r : Res} (h : Below ok p r) : Below (fun _ => true) p r := by
+  intro q hq
+  obtain ⟨s, more, e, _⟩ := h q hq
+  exact ⟨s, more, e, rfl⟩
+
+theorem Below.nest {ok ok' : PSeg → Bool} {p : Path} {s : PSeg} {r : Res} (h : Below ok' (p ++ [s]) r)
+    (hs : ok s = true) : Below ok p r := by
+  intro q hq
+  obtain ⟨s', more, e, _⟩ := h q hq
+  exact ⟨s, s' :: more, by rw [e]; simp, hs⟩
+
+theorem Below.single {ok : PSeg → Bool} {p : Path} {r : Res}
+    (h : ∀ q ∈ r.paths, ∃ s, q = p ++ [s] ∧ ok s = true) : Below ok p r := by
+  intro q hq
+  obtain ⟨s, e, hs⟩ := h q hq
+  exact ⟨s, [], e, hs⟩
+
+theorem classifyItem_below {cfg : Cfg} {p : Path} {seg : PSeg} {i : Nat} {sa oa x y : Val} {r : Res} {s : Bool}
+    (hseg : isIdx seg = true)
+    (h : classifyItem cfg p (p ++ [seg]) (p ++ [.idx i]) sa oa x y = .emit r s) : Below isIdx p r := by
+  apply Below.single
+  intro q hq
+  rcases classifyItem_paths h q hq with rfl | rfl
+  · exact ⟨seg, rfl, hseg⟩
+  · exact ⟨.idx i, rfl, rfl⟩
+
+theorem classifyEntry_below {cfg : Cfg} {p : Path} {k : Str} {x y : Val} {r : Res} {s : Bool}
+    (h : classifyEntry cfg (p ++ [.key k]) x y = .emit r s) : Below (fun _ => true) p r := by
+  apply Below.single
+  intro q hq
+  exact ⟨.key k, classifyEntry_paths h q hq, rfl⟩
+
+theorem leftover_path {cfg : Cfg} {p : Path} {kv : Str × Val} {e : UE} (h : leftover cfg p kv = some e) :
+    e.path = p ++ [.key kv.1] := by
+  simp only [leftover] at h
+  split at h
+  · cases h; rfl
+  · cases h
+
+theorem dictTail_paths (cfg : Cfg) (p : Path) (sa oa : Val) (skvs okvs : List (Str × Val)) (st : Bool) :
+    ∀ q ∈ (dictTail cfg p sa oa skvs okvs st).paths, ∃ k, q = p ++ [.key k] := by
+  intro q hq
+  simp only [Res.paths, dictTail, List.map_nil, List.append_nil, List.nil_append, List.mem_append, List.mem_map,
+    List.mem_filterMap] at hq
+  rcases hq with ⟨e, ⟨kv, _, hl⟩, rfl⟩ | ⟨e, ⟨kv, _, hl⟩, rfl⟩
+  · exact ⟨_, leftover_path hl⟩
+  · exact ⟨_, leftover_path hl⟩
+
+theorem dictTail_below (cfg : Cfg) (p : Path) (sa oa : Val) (skvs okvs : List (Str × Val)) (st : Bool) :
+    Below (fun _ => true) p (dictTail cfg p sa oa skvs okvs st) := by
+  apply Below.single
+  intro q hq
+  obtain ⟨k, e⟩ := dictTail_paths cfg p sa oa skvs okvs st q hq
+  exact ⟨_, e, rfl⟩
+
+theorem keyedTail_below (p : Path) (sr orr : List KE) : Below isIdx p (keyedTail p sr orr) := by
+  apply Below.single
+  intro q hq
+  obtain ⟨j, e⟩ := keyedTail_paths p sr orr q hq
+  exact ⟨_, e, rfl⟩
+
+theorem otherTail_below (p : Path) (i : Nat) (ys : List Val) :
+    Below isIdx p { diffs := (otherTail p i ys).length, otherUnique := otherTail p i ys } := by
+  apply Below.single
+  intro q hq
+  simp only [Res.paths, List.map_nil, List.append_nil, List.nil_append, List.mem_map] at hq
+  obtain ⟨e, he, rfl⟩ := hq
+  obtain ⟨j, hj⟩ := otherTail_paths p ys i e he
+  exact ⟨_, hj, rfl⟩
+
+theorem selfItem_below (p : Path) (i : Nat) (x : Val) :
+    Below isIdx p { diffs := 1, selfUnique := [⟨p ++ [.idx i], x⟩] } := by
+  apply Below.single
+  intro q hq
+  simp only [Res.paths, List.map_nil, List.append_nil, List.nil_append, List.map_cons, List.mem_singleton] at hq
+  exact ⟨_, hq, rfl⟩
+
+theorem isIdx_seg (i j : Nat) : isIdx (if i = j then PSeg.idx i else PSeg.idx2 i j) = true := by
+  split <;> rfl
+
+mutual
+theorem sub_below (cfg : Cfg) (site : Site) (p : Path) (v w : Val) (r : Res)
+    (h : sub cfg site p v w = .ok r) : Below (fun _ => true) p r :=
+  match v, w, h with
+  | .list c xs, w, h => by
+    cases w with
+    | list c' ys =>
+      simp only [sub] at h
+      split at h
+      · cases h
+      · split at h
+        · cases h
+        · split at h
+          · cases h; exact Below.empty _ _
+          · split at h
+            · exact (directWalk_below cfg p _ _ 0 xs ys r h).mono
+            · split at h
+              · cases h
+              · split at h
+                · cases h
+                · exact (keyedWalk_below cfg p _ _ 0 xs _ _ _ r h).mono
+    | _ => simp [sub] at h
+  | .dict c kvs, w, h => by
+    cases w with
+    | dict c' kvs' =>
+      simp only [sub] at h
+      split at h
+      · cases h
+      · exact dictWalk_below cfg p _ _ kvs kvs' true kvs r h
+    | _ => simp [sub] at h
+  | .none, _, h => by simp [sub] at h; subst h; exact Below.empty _ _
+  | .bool _, _, h => by simp [sub] at h
+  | .int _, _, h => by simp [sub] at h
+  | .flt _, _, h => by simp [sub] at h
+  | .str _, _, h => by simp [sub] at h
+termination_by structural v
+
+theorem dictWalk_below (cfg : Cfg) (p : Path) (sa oa : Val) (skvs okvs : List (Str × Val))
+    (still : Bool) (kvs : List (Str × Val)) (r : Res)
+    (h : dictWalk cfg p sa oa skvs okvs still kvs = .ok r) : Below (fun _ => true) p r :=
+  match kvs, still, h with
+  | [], still, h => by
+    simp only [dictWalk] at h
+    cases h; exact dictTail_below cfg p sa oa skvs okvs still
+  | (k, v) :: rest, still, h => by
+    simp only [dictWalk] at h
+    cases hl : Val.lookup k okvs with
+    | none =>
+      rw [hl] at h
+      exact dictWalk_below cfg p sa oa skvs okvs still rest r h
+    | some w =>
+      rw [hl] at h
+      simp only at h
+      cases hcl : classifyEntry cfg (p ++ [.key k]) v w with
+      | emit r0 s =>
+        rw [hcl] at h
+        simp only at h
+        cases hr : dictWalk cfg p sa oa skvs okvs (still && s) rest with
+        | error e => rw [hr] at h; cases h
+        | ok r' =>
+          rw [hr] at h; cases h
+          exact Below.append (classifyEntry_below hcl) (dictWalk_below cfg p sa oa skvs okvs (still && s) rest r' hr)
+      | descend =>
+        rw [hcl] at h
+        simp only at h
+        cases hs : sub cfg .entry (p ++ [.key k]) v w with
+        | error e => rw [hs] at h; cases h
+        | ok r1 =>
+          rw [hs] at h
+          simp only at h
+          cases hr : dictWalk cfg p sa oa skvs okvs still rest with
+          | error e => rw [hr] at h; cases h
+          | ok r' =>
+            rw [hr] at h; cases h
+            exact Below.append (Below.nest (sub_below cfg .entry _ v w r1 hs) rfl)
+              (dictWalk_below cfg p sa oa skvs okvs still rest r' hr)
+termination_by structural kvs
+
+theorem directWalk_below (cfg : Cfg) (p : Path) (sa oa : Val) (i : Nat) (xs ys : List Val) (r : Res)
+    (h : directWalk cfg p sa oa i xs ys = .ok r) : Below isIdx p r :=
+  match xs, ys, i, h with
+  | [], ys, i, h => by
+    simp only [directWalk] at h
+    cases h
+    exact otherTail_below p i ys
+  | x :: xs, [], i, h => by
+    simp only [directWalk] at h
+    cases hr : directWalk cfg p sa oa (i + 1) xs [] with
+    | error e => rw [hr] at h; cases h
+    | ok r' =>
+      rw [hr] at h; cases h
+      exact Below.append (selfItem_below p i x) (directWalk_below cfg p sa oa (i + 1) xs [] r' hr)
+  | x :: xs, y :: ys, i, h => by
+    simp only [directWalk] at h
+    cases hcl : classifyItem cfg p (p ++ [.idx i]) (p ++ [.idx i]) sa oa x y with
+    | emit r0 s =>
+      rw [hcl] at h
+      simp only at h
+      cases hr : directWalk cfg p sa oa (i + 1) xs ys with
+      | error e => rw [hr] at h; cases h
+      | ok r' =>
+        rw [hr] at h; cases h
+        exact Below.append (classifyItem_below rfl hcl) (directWalk_below cfg p sa oa (i + 1) xs ys r' hr)
+    | descend =>
+      rw [hcl] at h
+      simp only at h
+      cases hs : sub cfg .item (p ++ [.idx i]) x y with
+      | error e => rw [hs] at h; cases h
+      | ok r1 =>
+        rw [hs] at h
+        simp only at h
+        cases hr : directWalk cfg p sa oa (i + 1) xs ys with
+        | error e => rw [hr] at h; cases h
+        | ok r' =>
+          rw [hr] at h; cases h
+          exact Below.append (Below.nest (sub_below cfg .item _ x y r1 hs) rfl)
+            (directWalk_below cfg p sa oa (i + 1) xs ys r' hr)
+termination_by structural xs
+
+theorem keyedWalk_below (cfg : Cfg) (p : Path) (sa oa : Val) (i : Nat) (xs : List Val) (ks : List Str)
+    (sr orr : List KE) (r : Res)
+    (h : keyedWalk cfg p sa oa i xs ks sr orr = .ok r) : Below isIdx p r :=
+  match xs, ks, sr, orr, i, h with
+  | [], _, sr, orr, i, h => by
+    simp only [keyedWalk] at h
+    cases h; exact keyedTail_below p sr orr
+  | _ :: _, [], _, _, i, h => by simp [keyedWalk] at h
+  | x :: xs, k :: ks, sr, orr, i, h => by
+    simp only [keyedWalk] at h
+    cases hf : findKey k orr with
+    | none =>
+      rw [hf] at h
+      exact keyedWalk_below cfg p sa oa (i + 1) xs ks sr orr r h
+    | some jy =>
+      obtain ⟨j, y⟩ := jy
+      rw [hf] at h
+      simp only at h
+      cases hcl : classifyItem cfg p (p ++ [if i = j then PSeg.idx i else PSeg.idx2 i j]) (p ++ [.idx i]) sa oa x y with
+      | emit r0 s =>
+        rw [hcl] at h
+        simp only at h
+        cases hr : keyedWalk cfg p sa oa (i + 1) xs ks (eraseKey k sr) (eraseKey k orr) with
+        | error e => rw [hr] at h; cases h
+        | ok r' =>
+          rw [hr] at h; cases h
+          exact Below.append (classifyItem_below (isIdx_seg i j) hcl) (keyedWalk_below cfg p sa oa (i + 1) xs ks _ _ r' hr)
+      | descend =>
+        rw [hcl] at h
+        simp only at h
+        cases hs : sub cfg .item (p ++ [if i = j then PSeg.idx i else PSeg.idx2 i j]) x y with
+        | error e => rw [hs] at h; cases h
+        | ok r1 =>
+          rw [hs] at h
+          simp only at h
+          cases hr : keyedWalk cfg p sa oa (i + 1) xs ks (eraseKey k sr) (eraseKey k orr) with
+          | error e => rw [hr] at h; cases h
+          | ok r' =>
+            rw [hr] at h; cases h
+            exact Below.append (Below.nest (sub_below cfg .item _ x y r1 hs) (isIdx_seg i j))
+              (keyedWalk_below cfg p sa oa (i + 1) xs ks _ _ r' hr)
+termination_by structural xs
+end
 
 end N0.Compare
